@@ -80,6 +80,16 @@ func (r *runner) runSetRec(flows []Flow, txns []Txn, allOrders bool, label strin
 				o.Hit(c.Hit{Suite: suite, Index: idx, Signature: f.sig, Demanded: f.demanded, Observed: f.observed, Case: mini})
 			}
 		}
+		// stability: a selection handed to one transaction is not changed by later lookups
+		o.MonitorChecked(1)
+		for _, m := range k.Mutated {
+			mini := Case{Flows: k.Flows, AddErr: k.AddErr, Obs: k.Obs[m.Index:]}
+			o.Hit(c.Hit{Suite: suite, Index: idx, Signature: "selection-mutated:GetFlow",
+				Demanded: fmt.Sprintf("the flows selected for %s %s (%v) are the ones run for it, whatever other transactions are looked up before it runs",
+					k.Obs[m.Index].Txn.Method, k.Obs[m.Index].Txn.URL, k.Obs[m.Index].Selected),
+				Observed: fmt.Sprintf("after the later transactions of the batch were looked up the same result object lists %v", m.After),
+				Case:     mini})
+		}
 		// load-order independence: same flow set, same transaction => same selection
 		if first == nil {
 			kk := k
